@@ -83,7 +83,8 @@ def coercion_true_test(
     @functools.wraps(tester)
     def f(series: pd.Series) -> bool:
         result = tester(series)
-        return False if result is None else series.all()
+        # reduce over objects: `all` is not implemented for the string dtypes
+        return False if result is None else series.astype(object).all()
 
     return f
 
